@@ -378,6 +378,11 @@ class Simulator(EventProducer, SimulatorInterface, Generic[TIME]):
         while not self._runflag and int(time.time() * 1000) - msec < 1000:
             sleep(0.001)
         self._runflag = False
+        # the run thread may have ended the replication after the check at
+        # the top; it will not run again and cannot settle the state
+        if (self._replication_state == ReplicationState.ENDED 
+                and self._run_state == RunState.STARTING):
+            self._run_state = RunState.ENDED
             
     def start(self):
         """Starts the simulator, and fire a START_EVENT that the simulator 
